@@ -177,3 +177,33 @@ Fixpoint oracle_steps (steps : list (kop * kobs)) (prev : list kst) (drops : boo
   end.
 
 Definition oracle (c : qcase) : bool := oracle_steps (snd c) [] false [] [].
+
+(** * Stress runs (real preemption, no hooks; both queues): np producers add k packets each
+    (ids p*1000+i, p = 1..np), consumers poll in a loop; [got] = per consumer, the ids in the order
+    its polls returned them; [stuck] = not everything had been returned 3 s after the last add
+    (poll timeout 60 s: only the queue's own signalling can deliver). *)
+Definition ids_of (p : N) (l : list N) : list N := filter (fun x => N.eqb (x / 1000) p) l.
+
+Fixpoint increasing (l : list N) : bool :=
+  match l with
+  | x :: (y :: _) as t => (x <? y)%N && increasing t
+  | _ => true
+  end.
+
+Fixpoint nodupb (l : list N) : bool :=
+  match l with
+  | [] => true
+  | x :: l' => negb (existsb (N.eqb x) l') && nodupb l'
+  end.
+
+Definition stress_oracle (c : nat * nat * list (list N) * bool) : bool :=
+  let '(np, k, got, stuck) := c in
+  let all := concat got in
+  negb stuck
+  && Nat.eqb (length all) (np * k)
+  && nodupb all
+  && forallb (fun p =>
+       let p := N.of_nat p in
+       forallb (fun g => increasing (ids_of p g)) got          (* per-producer order, per consumer *)
+       && Nat.eqb (length (ids_of p all)) k
+       && forallb (fun x => (x <? p * 1000 + N.of_nat k)%N) (ids_of p all)) (seq 1 np).
